@@ -351,7 +351,9 @@ class Impl:
                             f.update(depends_on=prio[0], weight_byte=prio[1], exclusive=prio[2])
                     else:
                         f = {'type': 'PUSH_PROMISE', 'sid': sid, 'promised': promised, 'flags': fl, 'block': ch}
-                    if 'pad' in hint:
+                    # hyperframe 6.1 rejects a padded HEADERS frame whose fragment is empty (its own padding
+                    # rule, stricter than the RFC): such a frame is not generated
+                    if 'pad' in hint and not (k == 'Headers' and hint['pad'] > 0 and len(ch) == 0 and prio is None):
                         fl.add('PADDED')
                         f['pad_length'] = hint['pad']
                 else:
@@ -390,6 +392,7 @@ class Impl:
         """-> (annotated op, observation parts as trees)"""
         c = self.conn
         k = op[0]
+        self.cleared = False
         n_calls = len(self.spy.calls)
         ans = []
         res = None
